@@ -47,8 +47,16 @@ HISTORIES = []
 _calls = [('a', 'expect', ('ab',), 0.3), ('s', 'expect', ('ab',), 0.3), ('a', 'expect_exact', ('b', 'a\xe9'), 0.3),
           ('a', 'expect', ('ab', 'TIMEOUT'), 0.3), ('a', 'expect_list', ('b', 'EOF'), None), ('s', 'expect_exact', ('b', 'a\xe9'), 0.3),
           ('a', 'expect', ('\xe9',), 0.3), ('a', 'expect', ('b',), 0), ('a', 'expect', ('ab', 'EOF'), None)]
-for c in _calls:
+_T0 = ('a', 'expect', ('b',), 0)
+_ZW = ('a', 'expect', ('b*',), 0.3)           # can match the empty string: must answer at once, like the blocking call
+_ZWX = ('a', 'expect_exact', ('', 'q'), 0.3)
+for c in _calls + [_ZW, _ZWX, ('s', 'expect', ('b*',), 0.3)]:
     HISTORIES.append((c,))
+# an awaited poll (T=0) first: EOF / data may land while its timeout is firing; the NEXT call must then see it
+for c2 in _calls[:7] + [_T0, _ZW]:
+    HISTORIES.append((_T0, c2))
+HISTORIES.append((_ZW, _calls[0]))
+HISTORIES.append((_calls[0], _ZW))
 for c1 in _calls[:6]:
     for c2 in _calls[:7]:
         HISTORIES.append((c1, c2))
@@ -109,6 +117,8 @@ def run_case(ch, mode, history, raw, cuts):
             mark = len(log.items)
             n_script0 = len(env.script)
             t0 = env.now()
+            # is the stream already over when this call starts (peer gone, everything it wrote consumed)?
+            eof_before_call = (not env.script) and (not sp.hs_proc.alive()) and not env.hbuf.get(sp.hs_master)
             if how == 'a' and env.hbuf.get(sp.hs_master):
                 flags.add('data_between_calls')
 
@@ -218,6 +228,10 @@ def run_case(ch, mode, history, raw, cuts):
                     if out[0] != nm or sp.match is not None or sp.after is not mk:
                         viol = ('marker-fields', '%s not listed: out=%r after=%r match=%r' % (nm, out, sp.after, sp.match))
                         break
+                if okind == 'TIMEOUT' and eof_before_call:
+                    viol = ('eof-not-reported', '%s call reported TIMEOUT although the child had exited and all its output had been '
+                            'consumed before the call started (the blocking call reports EOF)' % ('awaited' if how == 'a' else 'blocking'))
+                    break
                 if okind == 'TIMEOUT':
                     pending = alltext
                     if how == 'a':
